@@ -97,8 +97,79 @@ def validate_trace(ctx, E, name, module, cfg, trace, n_events, timeout=3000, hea
         for v in summ["dev"].values():
             v["first"] = {"verdict": v["first"], "event": lines.get(v["first"]["l"])}
     ctx.absorb_summary("I->S " + name, summ)
+    if os.environ.get("VERIF_BINDING") and not summ["bad"]:
+        binding_selftest(ctx, E, name, module, cfg, trace, n_events, timeout, heap)
     os.remove(trace)
     return res, summ
+
+
+def _corrupt(v, rnd):
+    """Change one leaf of a JSON value (string: one letter changed / appended, bool: flipped, int: +1)."""
+    if isinstance(v, dict) and v:
+        keys = sorted(v)
+        rnd.shuffle(keys)
+        for k in keys:
+            c, ok = _corrupt(v[k], rnd)
+            if ok:
+                v[k] = c
+                return v, True
+        return v, False
+    if isinstance(v, list) and v:
+        idx = list(range(len(v)))
+        rnd.shuffle(idx)
+        for i in idx:
+            c, ok = _corrupt(v[i], rnd)
+            if ok:
+                v[i] = c
+                return v, True
+        return v, False
+    if isinstance(v, bool):
+        return (not v), True
+    if isinstance(v, int):
+        return v + 1, True
+    if isinstance(v, str) and v:
+        i = rnd.randrange(len(v))
+        repl = "A" if v[i] != "A" else "C"
+        return v[:i] + repl + v[i + 1:], True
+    return v, False
+
+
+def binding_selftest(ctx, E, name, module, cfg, trace, n_events, timeout, heap):
+    """Binding self-test (VERIF_BINDING=1): corrupt one recorded field in each of up to 12 events of a trace that
+    was accepted, re-run the trace spec and count how many corrupted events it now rejects. The result goes into
+    the evidence only (a corruption of an informational field may legitimately be accepted)."""
+    import random
+    rnd = random.Random(ctx.seed * 7919 + len(name))
+    lines = open(trace).read().splitlines()
+    picks = sorted(rnd.sample(range(len(lines)), min(12, len(lines))))
+    done = []
+    for i in picks:
+        if len(lines[i]) > 200000:
+            continue
+        ev = json.loads(lines[i])
+        ev2, ok = _corrupt(ev, rnd)
+        if ok:
+            lines[i] = json.dumps(ev2)
+            done.append(i + 1)
+    ctrace = trace + ".corrupt"
+    open(ctrace, "w").write("\n".join(lines) + "\n")
+    verdicts = os.path.join(ctx.work, "verdicts_%s_corrupt.ndjson" % name)
+    res = E.run_tlc(ctx.work, "bind_" + name, module, cfg, env={"TRACEFILE": ctrace, "VERDICTFILE": verdicts},
+                    workers=1, timeout=timeout, heap=heap)
+    rejected = 0
+    if res["rc"] == 0 and os.path.exists(verdicts):
+        bad_lines = set()
+        for l in open(verdicts):
+            v = json.loads(l)
+            v = json.loads(v) if isinstance(v, str) else v
+            if v["v"] != "ok":
+                bad_lines.add(v["l"])
+        rejected = len(bad_lines & set(done))
+    else:
+        rejected = len(done)  # TLC itself refused the corrupted trace (type error in a corrupted field)
+    os.remove(ctrace)
+    ctx.stage_info.append({"stage": "binding self-test " + name, "events_corrupted": len(done), "rejected_by_trace_spec": rejected})
+    E.log("binding self-test %s: %d of %d corrupted events rejected by the trace spec" % (name, rejected, len(done)))
 
 
 # ------------------------------------------------------------------ C12
